@@ -262,16 +262,26 @@ def h_het(ctx, tumor_boost, zygosity_freq=None):
     ctx.cover("dropped a homozygous record", len(want) < 2)
 
 
-def h_baf(ctx, above_half):
-    """baf_by_ranges: median of the mirrored heterozygous frequencies inside each range."""
+def h_baf(ctx, above_half, tumor_boost=False):
+    """baf_by_ranges: median of the mirrored heterozygous frequencies inside each range
+    (TumorBoost-normalised first when asked; the normal's frequencies are concrete so that
+    the quotients stay linear)."""
     n = 3
     pos = [10, 20, 110]
     freqs = [ctx.real(f"f{i}", 0, 1) for i in range(n)]
     zyg = [ctx.choice(f"z{i}", [0.0, 0.5, 1.0]) for i in range(n)]
-    va = VA(make_df({"chromosome": ["chr1"] * n, "start": pos, "end": [p + 1 for p in pos], "ref": ["A"] * n, "alt": ["G"] * n, "zygosity": zyg, "alt_freq": freqs}))
+    cols = {"chromosome": ["chr1"] * n, "start": pos, "end": [p + 1 for p in pos], "ref": ["A"] * n, "alt": ["G"] * n, "zygosity": zyg, "alt_freq": freqs}
+    nfreq = [0.5, 0.4, 0.25]
+    if tumor_boost:
+        cols["n_zygosity"] = list(zyg)
+        cols["n_alt_freq"] = list(nfreq)
+    va = VA(make_df(cols))
     segs = make_ga({"chromosome": ["chr1", "chr1", "chr2"], "start": [0, 100, 0], "end": [100, 200, 50]})
+    if tumor_boost:
+        # the formula, per variant (stays attached to its own coordinates)
+        freqs = [If(f < nf, 0.5 * f / nf, 1 - 0.5 * (1 - f) / (1 - nf)) for f, nf in zip(freqs, nfreq)]
     try:
-        baf = list(va.baf_by_ranges(segs, above_half=above_half))
+        baf = list(va.baf_by_ranges(segs, above_half=above_half, tumor_boost=tumor_boost))
     except Exception as exc:
         ctx.claim(False, f"baf_by_ranges raised {type(exc).__name__}", info=str(exc)[:200])
         return
@@ -331,6 +341,6 @@ def _rows_cfgs():
 HARNESSES = [
     Harness("rows", h_rows, _rows_cfgs(), covers=["record kept", "record dropped"], wall_s=400, thorough_wall_s=1800),
     Harness("load_het_snps", h_het, [{"tumor_boost": False}, {"tumor_boost": False, "zygosity_freq": 0.0}, {"tumor_boost": False, "zygosity_freq": 0.25, "tier": "thorough"}], covers=["dropped a homozygous record", "genotypes from frequencies"], wall_s=300),
-    Harness("baf_by_ranges", h_baf, [{"above_half": None}, {"above_half": True}, {"above_half": False}], covers=["empty range", "two variants in a range"], wall_s=300),
+    Harness("baf_by_ranges", h_baf, [{"above_half": None}, {"above_half": True}, {"above_half": False}, {"above_half": None, "tumor_boost": True}, {"above_half": True, "tumor_boost": True}], covers=["empty range", "two variants in a range"], wall_s=300),
     Harness("formulas", h_formulas, [{}], covers=["reached"]),
 ]
